@@ -211,6 +211,7 @@ class FnResult(object):
         self.seconds = 0.0
         self.notes = set()
         self.unreached = []
+        self.vacuous = []
 
 
 def locate(spec_fn):
@@ -364,6 +365,12 @@ def run_path(ex, ctx, spec, fs, lemma, fdef, modname, clsname, fname, res):
         ret = r.val
     except RaiseSignal as sig:
         res.raises[sig.exc] = res.raises.get(sig.exc, 0) + 1
+        chk = z3.Solver()
+        chk.set("timeout", 3000)
+        for h in ctx.pc:
+            chk.add(h)
+        if chk.check() == z3.unsat:
+            res.vacuous.append("path %s reaches `raise %s` with contradictory assumptions" % (ctx.path_id(), sig.exc))
         if lemma is not None:
             ctx.oblige(z3.BoolVal(False), "%s/noexc:%s" % (fname, sig.exc), "exception", sig.line)
             return
@@ -379,6 +386,14 @@ def run_path(ex, ctx, spec, fs, lemma, fdef, modname, clsname, fname, res):
             ctx.oblige(truthy(cond), "%s/raises[%s]" % (fs.path, matched), "exc-post", sig.line)
         return
     res.returns += 1
+    # vacuity guard: the assumptions collected along a returning path must be satisfiable
+    # (a contradictory callee contract or precondition would make every obligation pass)
+    chk = z3.Solver()
+    chk.set("timeout", 3000)
+    for h in ctx.pc:
+        chk.add(h)
+    if chk.check() == z3.unsat:
+        res.vacuous.append("path %s reaches a return with contradictory assumptions" % ctx.path_id())
     if lemma is not None:
         return
     if fr.yielded is not None:
